@@ -194,6 +194,47 @@ def interleaved_ops(rng, n_items):
     return ops
 
 
+def first_use_race(rng, rec, classes, n=8):
+    """Eight threads behind a barrier decode the same encrypted message whose layout was not used in this
+    process yet: the first uses of a synthesized layout must agree, too."""
+    g = gen.Gen(rng)
+    P = g.P
+    fresh = [cc for cc in gen.ccs(P) if g.can_encrypt(P["areas"][str(cc)]["response_params"]) and P["areas"][str(cc)]["response_params"] not in classes]
+    rng.shuffle(fresh)
+    old = sys.getswitchinterval()
+    sys.setswitchinterval(1e-6)
+    try:
+        for cc in fresh[:n]:
+            _c, (rb, _e, ri) = g.pair(cc, dict(sessions=1, encrypt=True))
+            item = (f"race:R{cc:x}", "Response", rb, cc, ri["enc"], True)
+            barrier = threading.Barrier(8)
+            out = []
+
+            def work():
+                barrier.wait()
+                l = Live(item)
+                l.finish()
+                out.append(summarize(l))
+
+            ts = [threading.Thread(target=work) for _ in range(8)]
+            for t in ts:
+                t.start()
+            for t in ts:
+                t.join()
+            rec.case(("first-use-race", cc), nontrivial=True)
+            rec.count("first_use_races")
+            for other in out[1:]:
+                rec.count("comparisons")
+                why = differs(out[0], other)
+                if why:
+                    mech = "type-object" if "declared type object" in why else ("object" if "objects" in why else "events")
+                    rec.violation("history-first-use-race", mech, f"8 threads decoding the same encrypted response of command {cc:#x} for the first time disagree: {why}",
+                                  dict(pool=[(item[0], item[1], rb.hex(), cc, ri["enc"], True)], ops=[("threads",)]))
+                    break
+    finally:
+        sys.setswitchinterval(old)
+
+
 def run_shard(shard, rec):
     from tpmstream.spec.commands.params_common import TPMS_PARAMS
 
@@ -244,6 +285,7 @@ def run_shard(shard, rec):
                             rec.violation("history-threads", mech, f"thread {tid}: decode of {label} differs from the first decode: {why}", dict(pool=[(a, t, b.hex(), cc, enc, s) for a, t, b, cc, enc, s in pool], ops=[("threads",)]))
                     else:
                         first[label] = summ
+    first_use_race(rng, rec, classes)
     for name, ids in classes.items():
         rec.count("encrypted_layouts_seen")
         if len(ids) > 1:
@@ -254,7 +296,7 @@ def run_shard(shard, rec):
 
 def finish(m, tier):
     inc = []
-    for k in ("comparisons", "encrypted_area_events", "schedules_interleaved_ops", "schedules_seq_ops", "thread_runs"):
+    for k in ("comparisons", "encrypted_area_events", "schedules_interleaved_ops", "schedules_seq_ops", "thread_runs", "first_use_races"):
         if not m["counters"].get(k):
             inc.append(f"no {k}")
     return dict(inconclusive=inc)
